@@ -40,19 +40,19 @@ for pid in only:
         jobs.append(j)
 bins = {}
 for j in jobs:
-    k = (tuple(j.harness), tuple(j.wraps))
+    k = (tuple(j.harness), tuple(j.wraps), tuple(j.cflags))
     if k in bins:
         continue
-    exe = os.path.join(COV, "bin", j.harness[0].replace("/", "_").replace(".c", ""))
+    exe = os.path.join(COV, "bin", "%s_%d" % (j.harness[0].replace("/", "_").replace(".c", ""), len(bins)))
     hs = [os.path.join(driver.ENG, h) for h in j.harness]
-    r = subprocess.run(["gcc"] + HF + hs + objs + ["-o", exe, "--coverage", "-pthread", "-lm"] + ["-Wl,--wrap=%s" % w for w in j.wraps], capture_output=True, text=True)
+    r = subprocess.run(["gcc"] + HF + list(j.cflags) + hs + objs + ["-o", exe, "--coverage", "-pthread", "-lm"] + ["-Wl,--wrap=%s" % w for w in j.wraps], capture_output=True, text=True)
     if r.returncode:
         print("link failed", j.name, r.stderr[-500:]); continue
     bins[k] = exe
 
 
 def run(j):
-    exe = bins.get((tuple(j.harness), tuple(j.wraps)))
+    exe = bins.get((tuple(j.harness), tuple(j.wraps), tuple(j.cflags)))
     if not exe:
         return
     env = dict(os.environ, VC_DEADLINE_S="90", TMPDIR=COV + "/tmp")
